@@ -32,6 +32,11 @@ func runC10Race(c *Ctx, ch Chooser, kind string, nThreads int, onSub bool) strin
 	case "cached":
 		recC = newRecCached()
 		root, _ = tally.VerifNewRootScope(tally.ScopeOptions{CachedReporter: recC, OmitCardinalityMetrics: true}, 0, 1)
+	case "both":
+		// both reporters configured: a scope with a cached reporter delivers timers through the cached handle
+		rec = newRec()
+		recC = newRecCached()
+		root, _ = tally.VerifNewRootScope(tally.ScopeOptions{Reporter: rec, CachedReporter: recC, OmitCardinalityMetrics: true}, 0, 1)
 	default:
 		ts = tally.VerifNewTestScope("", nil, 1)
 		root = ts
@@ -85,7 +90,7 @@ func runC10Race(c *Ctx, ch Chooser, kind string, nThreads int, onSub bool) strin
 					got = append(got, e.I)
 				}
 			}
-		case "cached":
+		case "cached", "both":
 			for _, e := range recC.log.Snapshot() {
 				if e.Kind == "timer" && recC.Meta[e.ID].Name == full {
 					got = append(got, e.I)
@@ -111,6 +116,15 @@ func runC10Race(c *Ctx, ch Chooser, kind string, nThreads int, onSub bool) strin
 			Reply: fmt.Sprintf("timer %s: recorded %v, delivered %v", full, want, got)})
 		return line
 	}
+	if kind == "both" {
+		for _, e := range rec.log.Snapshot() {
+			if e.Kind == "timer" {
+				c.Cov.Fail(Failure{Kind: "violated", Clause: "cached-handle-takes-the-timer", Signature: "c10-race-" + kind, Line: line,
+					Reply: "a scope with a cached reporter delivered a timer value through the plain reporter"})
+				return line
+			}
+		}
+	}
 	if kind != "test" {
 		tally.VerifReportOnce(root)
 		if again := collect(); len(again) != len(got) {
@@ -127,7 +141,7 @@ func runC10Race(c *Ctx, ch Chooser, kind string, nThreads int, onSub bool) strin
 func suiteC10Race(c *Ctx) {
 	c.Cov.Rule = "2-4 threads make the first use of one timer name at the same time (each parked between scope.Timer's read-locked probe and its write lock, and between its two Record calls) on a plain, a cached and a reporter-less test scope, root and subscope; oracle: multiset of timer deliveries (reporter log, or the test scope's snapshot) = multiset recorded, a later report pass adds none; all schedules for 2 threads (DFS), sampled schedules for 3-4; nontrivial = at least two threads were parked before the write lock at the same time; distinct by schedule"
 	exhaustive := true
-	for _, kind := range []string{"test", "plain", "cached"} {
+	for _, kind := range []string{"test", "plain", "cached", "both"} {
 		for _, onSub := range []bool{false, true} {
 			d := &dfsChooser{}
 			for n := 0; ; n++ {
@@ -148,7 +162,7 @@ func suiteC10Race(c *Ctx) {
 	n := c.N(150, 3000)
 	for i := 0; i < n; i++ {
 		r := c.Rng.Fork()
-		kind := []string{"test", "plain", "cached"}[r.Intn(3)]
+		kind := []string{"test", "plain", "cached", "both"}[r.Intn(4)]
 		line := runC10Race(c, &randChooser{r: r}, kind, r.Range(3, 4), r.Bool())
 		c.Cov.Eval(line, strings.Count(line, "@scope.timer.pre-lock") >= 2)
 		c.Cov.Schedules++
